@@ -43,9 +43,13 @@ Watchdog::Watchdog(long csecs,
     throw std::invalid_argument("Watchdog constructor called with a"
                                 " non-positive number of centiseconds");
   }
+  PPL_VERIF_YIELD("C0");
   in_critical_section = true;
+  PPL_VERIF_YIELD("C1");
   pending_position = new_watchdog_event(csecs, handler, expired);
+  PPL_VERIF_YIELD("C10");
   in_critical_section = false;
+  PPL_VERIF_YIELD("C11");
 }
 
 inline
@@ -56,17 +60,26 @@ Watchdog::Watchdog(long csecs, void (* const function)())
     throw std::invalid_argument("Watchdog constructor called with a"
                                 " non-positive number of centiseconds");
   }
+  PPL_VERIF_YIELD("C0");
   in_critical_section = true;
+  PPL_VERIF_YIELD("C1");
   pending_position = new_watchdog_event(csecs, handler, expired);
+  PPL_VERIF_YIELD("C10");
   in_critical_section = false;
+  PPL_VERIF_YIELD("C11");
 }
 
 inline
 Watchdog::~Watchdog() {
+  PPL_VERIF_YIELD("D0");
   if (!expired) {
+    PPL_VERIF_YIELD("D1");
     in_critical_section = true;
+    PPL_VERIF_YIELD("D2");
     remove_watchdog_event(pending_position);
+    PPL_VERIF_YIELD("D8");
     in_critical_section = false;
+    PPL_VERIF_YIELD("D9");
   }
   delete &handler;
 }
